@@ -880,7 +880,9 @@ macro_rules! encode_properties_len {
             .iter()
             .map(|property| 4 + property.name.len() + property.value.len())
             .sum::<usize>();
-        $len += property_len + crate::var_int_len(property_len).expect("total properties length exceed 268,435,455");
+        // A property length beyond the variable byte integer range needs at least 5 bytes;
+        // don't panic here, the packet level `total_len()` check will refuse the packet.
+        $len += property_len + crate::var_int_len(property_len).unwrap_or(5);
     };
     ($properties:expr, $len:expr, $($t:ident,)+) => {
         // Every properties have user property
@@ -893,7 +895,8 @@ macro_rules! encode_properties_len {
             crate::v5::encode_property_len!($t, $properties, property_len);
         )+
 
-            $len += property_len + crate::var_int_len(property_len).expect("total properties length exceed 268,435,455");
+            // See above: leave the refusal of over-sized packets to `total_len()`.
+            $len += property_len + crate::var_int_len(property_len).unwrap_or(5);
     };
 }
 
